@@ -27,7 +27,14 @@ LEVEL_TEXT = ("Lean, for every plan and every magnitude: a conversion that retur
               "(findPath_sound) and with it every directly settled conversion is exact in every state reached by unit operations "
               "and size-consistent declarations (convert_direct_exact, C05.direct_conversion_exact; graphs without offsets); so is every conversion between "
               "SIMPLE units - products of powers of prefixed base units of fundamental, independent dimensions with matching "
-              "multiplicities - through _replace_factors/_match_factors/_cancel_factors/_inline_paths (convert_simple_exact). "
+              "multiplicities - through _replace_factors/_match_factors/_cancel_factors/_inline_paths (convert_simple_exact). FOR THE "
+              "SHIPPED DEFINITIONS THEMSELVES (float constants, only approximately consistent) the path search is proved sound up to "
+              "the accumulated edge errors (Proofs/PathNear: Near lb ub W x y, W <= max(1, gcd of the exponents) * hops), and per run "
+              "the kernel checks that the regenerated graph satisfies the approximate invariant with the C09 size certificate "
+              "(every ratio within 1e-3, within 2e-5 for all but the one known pair; nodes unprefixed; offsets only on temperature "
+              "units): hence for EVERY pair of interned units, after ANY unit operations, whatever convert returns through a directly "
+              "found path is right within (1 +- 1e-3)^W (shipped_direct_conversions_near, _after) - a universal statement where "
+              "the family obligation samples 158 pairs. "
               "The factor-matching planner as a whole is NOT proved sound - it is a heuristic "
               "that is wrong outside a fragment - so this check is partial: the model of the planner is tied to the code by "
               "differential execution (plans compared structurally), and the exact-size oracle runs on the real library over the "
@@ -44,8 +51,13 @@ THEOREMS = [
     "Measured.Obligations.family_conversions_exact",
     "Measured.findPath_sound", "Measured.convert_direct_exact", "Measured.C05.direct_conversion_exact",
     "Measured.convert_simple_exact", "Measured.C05.simple_conversion_exact", "Measured.C05.single_factor_conversion_exact",
+    "Measured.findPath_near", "Measured.convert_direct_near",
+    "Measured.Obligations.NearShipped.rows_ok", "Measured.Obligations.NearShipped.rows_tight",
+    "Measured.Obligations.NearShipped.shipped_graphNear", "Measured.Obligations.NearShipped.shipped_offRef",
+    "Measured.Obligations.NearShipped.shipped_direct_conversions_near",
+    "Measured.Obligations.NearShipped.shipped_direct_conversions_near_after",
 ]
-LEAN_TARGETS = ["Props.C04", "Props.C05", "Obligations.C04", "Obligations.C09"]
+LEAN_TARGETS = ["Props.C04", "Props.C05", "Obligations.C04", "Obligations.C09", "Obligations.C04Near"]
 THOROUGH_TARGETS = ["ObligationsFull.C04Full"]
 QUICK = {"chunks": 4, "ops": 1500}
 THOROUGH = {"chunks": 16, "ops": 9000}
